@@ -103,11 +103,17 @@ def run_case(case):
         def run(ctx, mode):
             ctx.assume(z3.And(pv >= 0, pv < len(perms)))
             order = perms[SymInt(pv, 0, len(perms) - 1).concretize()]
-            sysm = System(MemFile(text, 'comp.gro'))
-            for sp in order:
-                sysm.add_molecule_top(_top(sp))
+            try:
+                sysm = System(MemFile(text, 'comp.gro'))
+                for sp in order:
+                    sysm.add_molecule_top(_top(sp))
+            except Exception as e:       # a failure of the real code on a well-formed system is a finding
+                return order, ('failed', '%s: %s' % (type(e).__name__, str(e)[:80]))
             if mode == 'all':
-                mols = [mol_tuple(m) for m in sysm]
+                try:
+                    mols = [mol_tuple(m) for m in sysm]
+                except Exception as e:
+                    return order, ('failed', 'iteration raised %s: %s' % (type(e).__name__, str(e)[:60]))
                 comp_counts = dict(sysm.composition)
                 err = None
                 for sp in absent:
@@ -121,11 +127,17 @@ def run_case(case):
             if mode == 'index':
                 ctx.assume(z3.And(kv >= -n, kv < n))
                 k = SymInt(kv, -n, n - 1).concretize()
-                return order, (k, mol_tuple(sysm[k]))
+                try:
+                    return order, (k, mol_tuple(sysm[k]))
+                except Exception as e:
+                    return order, ('failed', 'System[%d] raised %s: %s' % (k, type(e).__name__, str(e)[:60]))
             ctx.assume(z3.And(av >= 0, av <= bv, bv <= n))
             a = SymInt(av, 0, n).concretize()
             b = SymInt(bv, 0, n).concretize()
-            return order, ((a, b), [mol_tuple(m) for m in sysm[a:b]])
+            try:
+                return order, ((a, b), [mol_tuple(m) for m in sysm[a:b]])
+            except Exception as e:
+                return order, ('failed', 'System[%d:%d] raised %s: %s' % (a, b, type(e).__name__, str(e)[:60]))
 
         for mode in ('all', 'index', 'slice'):
             cover, bad = [], None
@@ -136,6 +148,10 @@ def run_case(case):
                     bad = bad or {'order': None, 'what': 'abort %r' % (exc,)}
                     continue
                 order, payload = res
+                if payload[0] == 'failed':
+                    if bad is None:
+                        bad = {'order': ''.join(order), 'what': 'loading raised ' + payload[1]}
+                    continue
                 if mode == 'all':
                     mols, ln, cc, err, still = payload
                     want_cc = {}
